@@ -1356,7 +1356,14 @@ func errCarries(c *Ctx, op, e ssa.Value) bool {
 		return true
 	}
 	call, ok := op.(*ssa.Call)
-	if !ok || !strings.HasPrefix(c.Facts.External(call), "ext:fmt.Errorf") || len(call.Call.Args) < 2 {
+	if !ok {
+		return false
+	}
+	// a private wrapper `func wrap(op string, err error) error { return fmt.Errorf("%s: %w", op, err) }`
+	if pi, isW := sdErrWrapper(c, ir.Callee(call.Common()), 0); isW && pi < len(call.Call.Args) {
+		return errCarries(c, call.Call.Args[pi], e)
+	}
+	if !strings.HasPrefix(c.Facts.External(call), "ext:fmt.Errorf") || len(call.Call.Args) < 2 {
 		return false
 	}
 	for _, a := range varargValues(call.Call.Args[len(call.Call.Args)-1]) {
@@ -1365,6 +1372,49 @@ func errCarries(c *Ctx, op, e ssa.Value) bool {
 		}
 	}
 	return false
+}
+
+// sdErrWrapper: fn is a function of the repository whose every return is a
+// fmt.Errorf (or a further wrapper) carrying its error parameter pi: its
+// result is never nil and hands that error on.
+func sdErrWrapper(c *Ctx, fn *ssa.Function, depth int) (pi int, ok bool) {
+	if fn == nil || depth > 2 || !isOwn(c.P, fn) || fn.Signature.Results().Len() != 1 || !ir.IsErrorType(fn.Signature.Results().At(0).Type()) {
+		return 0, false
+	}
+	pi = -1
+	for i, p := range fn.Params {
+		if ir.IsErrorType(p.Type()) {
+			if pi >= 0 {
+				return 0, false
+			}
+			pi = i
+		}
+	}
+	rets := ir.Returns(fn)
+	if pi < 0 || len(rets) == 0 {
+		return 0, false
+	}
+	e := ssa.Value(fn.Params[pi])
+	for _, r := range rets {
+		call, isCall := r.Results[0].(*ssa.Call)
+		if !isCall {
+			return 0, false
+		}
+		carried := false
+		if strings.HasPrefix(c.Facts.External(call), "ext:fmt.Errorf") && len(call.Call.Args) >= 2 {
+			for _, a := range varargValues(call.Call.Args[len(call.Call.Args)-1]) {
+				if ir.Strip(a) == e {
+					carried = true
+				}
+			}
+		} else if qi, isW := sdErrWrapper(c, ir.Callee(call.Common()), depth+1); isW && qi < len(call.Call.Args) && ir.Strip(call.Call.Args[qi]) == e {
+			carried = true
+		}
+		if !carried {
+			return 0, false
+		}
+	}
+	return pi, true
 }
 
 // sentinelTests finds the branches that compare e with ErrNoMoreDiffs
@@ -2319,7 +2369,7 @@ func diffReadsSameKeyBody(c *Ctx, S *sidesInfo, sb *stepBody) int {
 					st = sl
 				} else if sdIsNodePtr(a.Type()) {
 					node = true
-				} else if r := ir.ResolveCell(ir.Strip(a)); r == ssa.Value(oldItem) || r == ssa.Value(newItem) {
+				} else if (oldItem != nil && sdSameItem(a, oldItem)) || (newItem != nil && sdSameItem(a, newItem)) {
 					item = true
 				}
 			}
@@ -2524,7 +2574,7 @@ func (S *sidesInfo) offersLink(ci ssa.CallInstruction, item ssa.Value, notified 
 			break
 		}
 		asLink := isLink(a)
-		asItem := ir.ResolveCell(ir.Strip(a)) == item
+		asItem := sdSameItem(a, item)
 		if !asLink && !asItem {
 			continue
 		}
@@ -2964,7 +3014,11 @@ func sdMaySucceed(S *sidesInfo, fn *ssa.Function, r *ssa.Return) bool {
 		op = ex.Tuple
 	}
 	if call, ok := op.(*ssa.Call); ok {
-		if cal := ir.Callee(call.Common()); cal != nil && S.slice[cal] {
+		cal := ir.Callee(call.Common())
+		if _, isW := sdErrWrapper(&Ctx{P: S.P, Facts: S.F}, cal, 0); isW {
+			return false // a wrapped error: never nil
+		}
+		if cal != nil && S.slice[cal] {
 			return true
 		}
 	}
@@ -3748,7 +3802,22 @@ type stepBody struct {
 }
 
 func (b *stepBody) isItem(v, item ssa.Value) bool {
-	return item != nil && ir.ResolveCell(ir.Strip(v)) == item
+	return item != nil && sdSameItem(v, item)
+}
+
+// sdSameItem: v is the item (pointer) itself, or the whole item struct loaded
+// through it (an item pushed by value is a copy of the popped item).
+func sdSameItem(v, item ssa.Value) bool {
+	r := ir.ResolveCell(ir.Strip(v))
+	if r == item {
+		return true
+	}
+	if u, ok := r.(*ssa.UnOp); ok && u.Op == token.MUL {
+		if _, isStruct := u.Type().Underlying().(*types.Struct); isStruct && ir.ResolveCell(ir.Strip(u.X)) == item {
+			return true
+		}
+	}
+	return false
 }
 
 func (S *sidesInfo) linkOfItem(v, item ssa.Value) bool {
@@ -4263,7 +4332,7 @@ func expandWholeNodes(c *Ctx, S *sidesInfo, step *ssa.Function, stacks map[*sdSl
 					switch {
 					case ir.ResolveCell(ir.Strip(a)) == X && S.wholeExpander(callee, ai, 0):
 						return true
-					case item != nil && hasStack && ir.ResolveCell(ir.Strip(a)) == item:
+					case item != nil && hasStack && sdSameItem(a, item):
 						if ml, _ := sdMayLoad(c, pc); !ml {
 							return true // the item goes back unchanged
 						}
@@ -4444,10 +4513,40 @@ func notifyMemoHeight(c *Ctx, S *sidesInfo, notified *ssa.Function) {
 		// a function value taken from a field of the tree, applied to a key of a node
 		if ld, ok := call.Call.Value.(*ssa.UnOp); ok && ld.Op == token.MUL && !call.Call.IsInvoke() {
 			if fa, ok := ld.X.(*ssa.FieldAddr); ok && sdIsMast(fa.X.Type()) && len(call.Call.Args) > 0 {
-				if sdPathThroughNodeField(call.Call.Args[0], "Key") {
+				var keyArg func(a ssa.Value, d int) bool
+				keyArg = func(a ssa.Value, d int) bool {
+					if sdPathThroughNodeField(a, "Key") {
+						// the first key: the only one every keyed node has
+						if u, ok := ir.ResolveCell(ir.Strip(a)).(*ssa.UnOp); ok && u.Op == token.MUL {
+							if ia, isIA := u.X.(*ssa.IndexAddr); isIA {
+								if k, isK := ir.ConstInt(ia.Index); isK && k != 0 {
+									return false
+								}
+							}
+						}
+						return true
+					}
+					// the parameter of a helper wrapping the layer function: every call site passes a key
+					pp, isP := ir.ResolveCell(ir.Strip(a)).(*ssa.Parameter)
+					if !isP || d > 2 {
+						return false
+					}
+					pi, n := sdParamIndex(pp.Parent(), pp), 0
+					for _, cs := range P.Callers[pp.Parent()] {
+						if !scope[cs.Parent()] || pi < 0 || pi >= len(cs.Common().Args) {
+							continue
+						}
+						n++
+						if !keyArg(cs.Common().Args[pi], d+1) {
+							return false
+						}
+					}
+					return n > 0
+				}
+				if keyArg(call.Call.Args[0], 0) {
 					return nil // the layer of a key
 				}
-				return []leaf{{v, "the layer function applied to " + sdDesc(call.Call.Args[0]) + ", which is not a key of a loaded node"}}
+				return []leaf{{v, "the layer function applied to " + sdDesc(call.Call.Args[0]) + ", which is not the first key of a loaded node"}}
 			}
 		}
 		return []leaf{{v, sdDesc(v) + " is not the result of the layer function"}}
@@ -4565,10 +4664,19 @@ func shortcutRoots(c *Ctx, S *sidesInfo, stacks map[*sdSlot]bool) {
 		}
 		return false
 	}
-	isItemPtr := func(t types.Type) bool {
+	isItemPtr := func(t types.Type) bool { // an item, by pointer or by value
 		n, _ := sdNamedStruct(t)
-		_, isPtr := t.Underlying().(*types.Pointer)
-		return isPtr && n != nil && n.Obj() == S.itemT.Obj()
+		return n != nil && n.Obj() == S.itemT.Obj()
+	}
+	itemAlloc := func(v ssa.Value) (*ssa.Alloc, bool) {
+		v = ir.Strip(v)
+		if u, ok := v.(*ssa.UnOp); ok && u.Op == token.MUL {
+			if a, isA := u.X.(*ssa.Alloc); isA {
+				return a, true // the value of a local composite literal
+			}
+		}
+		a, ok := ir.ResolveCell(v).(*ssa.Alloc)
+		return a, ok
 	}
 	type verdict struct {
 		bad  string
@@ -4617,13 +4725,14 @@ func shortcutRoots(c *Ctx, S *sidesInfo, stacks map[*sdSlot]bool) {
 			if depth == 0 && rootIdx < 0 {
 				// in the constructor only what concerns this root counts
 				// (the other root has its own obligation)
-				al, isAlloc := ssa.Value(nil), false
+				var al *ssa.Alloc
+				isAlloc := false
 				if itemArg != nil {
-					al, isAlloc = ir.ResolveCell(ir.Strip(itemArg)).(*ssa.Alloc)
+					al, isAlloc = itemAlloc(itemArg)
 				}
 				carries := false
-				if isAlloc && al.(*ssa.Alloc).Referrers() != nil {
-					for _, r := range *al.(*ssa.Alloc).Referrers() {
+				if isAlloc && al.Referrers() != nil {
+					for _, r := range *al.Referrers() {
 						if fa, isFA := r.(*ssa.FieldAddr); isFA && fa.Field == S.itemLinkF && fa.Referrers() != nil {
 							for _, rr := range *fa.Referrers() {
 								if st, isSt := rr.(*ssa.Store); isSt && isBase(st.Val) {
@@ -4648,7 +4757,7 @@ func shortcutRoots(c *Ctx, S *sidesInfo, stacks map[*sdSlot]bool) {
 				_ = inner
 			case itemArg != nil:
 				// the primitive push of an item built here: its link must be the root
-				al, isAlloc := ir.ResolveCell(ir.Strip(itemArg)).(*ssa.Alloc)
+				al, isAlloc := itemAlloc(itemArg)
 				okItem := false
 				if isAlloc && al.Referrers() != nil {
 					for _, r := range *al.Referrers() {
